@@ -142,6 +142,21 @@ needs.update({
  "C07-t2": ("pyule computes the one-sided length as int(sampling/2./df) + 1", "pyule, real data, even non-power-of-two NFFT and a sampling for which the quotient falls just below the integer ((7.0, 100), (0.9, 50), (3.3, 200), (1000, 30))"),
  "C07-t3": ("a diagnostic inside the data setter reads the lazy self.psd while datatype is still the old one", "a computed PSD, then data of the other kind (real <-> complex), then a read"),
 })
+
+needs.update({
+ "C06-u1": ("plot(sides=t) assigns self.sides = t, plots, assigns the old value back - without try/finally", "PSD computed at sides s, plot(sides=t != s) whose plotting raises (file in a non-existent directory), then continued use"),
+ "C06-u2": ("a cached Nyquist-parity flag maintained by the NFFT setter but not by the complex psd setter (which writes NFFT directly)", "complex object, psd assigned with a length of the other parity, data replaced by real data, any conversion from onesided"),
+ "C06-u3": ("per-instance table of bound converter methods built in __init__: copy.copy keeps methods bound to the original", "a shallow copy, then sides assignments or a PSD of its own on the copy, then a conversion"),
+ "C06-v1": ("arma2psd returns early for norm=True, skipping the sides='centerdc' block", "norm=True together with sides='centerdc' in one call"),
+ "C06-v2": ("sides setter wraps the conversion in try/finally: the label and modified=False are set even when the conversion raised", "a sides assignment that raises (complex data asked for onesided, or a failing refresh), then continued use"),
+ "C06-v3": ("plot(norm=True) divides the stored PSD by its maximum in place", "plot(norm=True) with sides omitted or equal to the current one, then any read or conversion"),
+ "C07-u1": ("arma_estimate allocates its work vector with np.empty: entries Y[MPQ:lag] are never written when ar_order < ma_order", "parma with ar_order < ma_order in a process that has already done numpy work (allocator history)"),
+ "C07-u2": ("pburg adds half-LSB dither from the global numpy.random to integer-dtype samples", "pburg, integer-dtype data, two computations or two objects"),
+ "C07-u3": ("FourierSpectrum.periodogram() (documented alias) cuts the data to NFFT samples before tapering", "Periodogram, NFFT < N, the explicit computation done with p.periodogram(), then a read"),
+ "C07-v1": ("data setter applies detrend at assignment time (subtracts the mean from the stored data)", "detrend='mean' assigned before a data assignment with non-zero mean"),
+ "C07-v2": ("pma constructor rejects Q >= M while ma() is relaxed to reject only Q > M", "pma with an order assigned after construction so that ma_order == ar_order"),
+ "C07-v3": ("np.empty work vector in arma_estimate (same as C07-u1, other author)", "parma with ar_order < ma_order after at least one earlier parma computation in the process"),
+})
 res = json.load(open('/verif/seeded/RESULTS.json'))
 for sid, (mech, need) in needs.items():
     d = '/verif/seeded/' + sid
